@@ -48,7 +48,8 @@ pub fn convert_def(ast: &ASTTy, imp: &mut Imports, state: &State, ctx: &Context)
                     (_, Some(expr)) => match convert_node(expr, imp, &state, ctx)? {
                         Core::IfElse { .. } | Core::Match { .. } => {
                             // redo convert but with assign to state
-                            let state = state.must_assign_to(Some(&var.clone()), expr.ty.clone());
+                            let name = if annotate { expr.ty.clone() } else { None };
+                            let state = state.must_assign_to(Some(&var.clone()), name);
                             return convert_node(expr, imp, &state, ctx);
                         }
                         other => Some(Box::from(other)),
